@@ -672,7 +672,7 @@ func (w *World) Enabled(al *Alphabet) func(ctx sdk.Context, l *Ledger, depth int
 			}
 		}
 		if al.Incentive && len(l.Incentives) < 2 {
-			ops = append(ops, Op{K: "incentive", X: 1000000, Y: 10, D: 0}, Op{K: "incentive", X: 7777, Y: 1, D: 1})
+			ops = append(ops, Op{K: "incentive", X: 1000000, Y: 10, D: 0}, Op{K: "incentive", X: 3700, Y: 1, D: 1})
 			if l.R.On {
 				ops = append(ops, Op{K: "incentive", X: 500000, Y: 3, D: 2})
 			}
